@@ -216,11 +216,15 @@ def detect_variant(vdriver, vmodel):
     # InterpreterImpl::enqueue: is the target recorded before the timer can fire?  The delayed queue keeps its caller
     # for 60 ms after arming a 10 ms timer: as it is, the callback waits for _delayMutex and delivers afterwards
     p = 'Z:60,S:1:1:0:%s:10' % hexs(b'10ms')
-    q = subprocess.run([vdriver], input=('delay_rt %d %s\n' % (TOL_US, p)).encode(), stdout=subprocess.PIPE, stderr=subprocess.PIPE, timeout=60)
-    ans = [l[2:] for l in q.stdout.decode('utf-8', 'replace').split('\n') if l.startswith('@@')]
-    rr = kv(ans[0]) if ans else {'res': 'crash', 'obs': '-'}
-    notes['arms_first_probe'] = {k: rr.get(k) for k in ('res', 'fault', 'obs')}
-    armsfirst = 1 if (rr.get('res') == 'ok' and not counts(rr.get('obs', '-'))) else 0
+    armsfirst = 1
+    for _ in range(3):      # the switch is taken for on only if the event is lost every time
+        q = subprocess.run([vdriver], input=('delay_rt %d %s\n' % (TOL_US, p)).encode(), stdout=subprocess.PIPE, stderr=subprocess.PIPE, timeout=60)
+        ans = [l[2:] for l in q.stdout.decode('utf-8', 'replace').split('\n') if l.startswith('@@')]
+        rr = kv(ans[0]) if ans else {'res': 'crash', 'obs': '-'}
+        notes['arms_first_probe'] = {k: rr.get(k) for k in ('res', 'fault', 'obs')}
+        if not (rr.get('res') == 'ok' and not counts(rr.get('obs', '-'))):
+            armsfirst = 0
+            break
     o = vm(vmodel, ['simc 000 %s %s' % (W_PROG, W_UAF), 'simc 000 %s %s' % (W_PROG, W_DEADLOCK)])
     s_uaf, s_dl = kv(o[0])['steps'], kv(o[1])['steps']
     r = replay(vdriver, W_PROG, s_uaf)
